@@ -58,7 +58,7 @@ class C05(LoopSpec):
                     mkjob("R3", 3, True, period=0.05, sym_body=["periodic"]), mkjob("R4", 3, True)]
         return [mkjob("R1", 5, True, sym_body=["periodic"]), mkjob("R2", 6, True), mkjob("R3", 6, False),
                 mkjob("R2", 5, True, sym_shutdown=True), mkjob("R1", 4, True, raw_words=True),
-                mkjob("R3", 4, True, change_at_dispatch=True), mkjob("R1", 4, True, period="sym", sym_body=["periodic"]),
+                mkjob("R3", 3, True, change_at_dispatch=True), mkjob("R1", 4, True, period="sym", sym_body=["periodic"]),
                 mkjob("R2", 4, True, period=0.005)]
 
     def reach_required(self, tier):
@@ -93,7 +93,7 @@ class C06(LoopSpec):
                     mkjob("R2", 3, True, fms=True, faults=1, fault_patterns=["first", "always"],
                           fault_sites=["c1.on_disable", "c1.on_enable", "c2.on_disable", "c2.on_enable"])]
         return [mkjob("R1", 6, True), mkjob("R2", 5, True, sym_shutdown=True), mkjob("R3", 6, False),
-                mkjob("R2", 4, True, raw_words=True), mkjob("R1", 4, True, change_at_dispatch=True), mkjob("R4", 5, True),
+                mkjob("R2", 4, True, raw_words=True), mkjob("R1", 3, True, change_at_dispatch=True), mkjob("R4", 5, True),
                 mkjob("R2", 4, True, fms=True, faults=2, fault_patterns=["first", "always"],
                       fault_sites=["c1.on_disable", "c1.on_enable", "c2.on_disable", "c2.on_enable", "c1.execute"])]
 
